@@ -80,8 +80,18 @@ fn enumerate(ctx: &Ctx, stream: &str, idx: u64, family: &str, describe: J, scena
         ctx.count("scenarios_with_sampled_k", 1);
     }
     let mut nontrivial = false;
+    // quick runs two error kinds per scenario, rotating through all six over the scenarios
+    let kinds: Vec<ErrorKind> = if kinds.len() <= 2 { vec![FAULT_KINDS[(idx as usize * 2) % 6], FAULT_KINDS[(idx as usize * 2 + 1) % 6]] } else { kinds.to_vec() };
     for &k in &ks {
-        for &kind in kinds {
+        // ErrorKind::Interrupted is a retry request for read/write (C11) but an ordinary failure
+        // for seek, flush and create: it is injected there as an extra kind
+        let op = trace.get(k as usize - 1).map(|t| t.1).unwrap_or("");
+        let mut these = kinds.clone();
+        if matches!(op, "seek" | "flush" | "create") && (k + idx) % 3 == 0 {
+            these.push(ErrorKind::Interrupted);
+        }
+        for &kind in &these {
+            ctx.tag("error_kinds_injected", &format!("{:?}", kind));
             let plan = Plan::new(k, kind);
             let r = scenario(plan.clone());
             ctx.count("faulted_runs", 1);
